@@ -298,6 +298,11 @@ class CMapParser(PSStackParser[PSKeyword]):
         except PSEOF:
             pass
 
+    # No range of a CMap is expanded beyond this many codes: character codes
+    # and CIDs of a PDF font do not exceed two bytes, and a range written as
+    # <00000000> <FFFFFFFF> must not cost four thousand million steps.
+    MAX_RANGE = 65536
+
     KEYWORD_BEGINCMAP = KWD(b"begincmap")
     KEYWORD_ENDCMAP = KWD(b"endcmap")
     KEYWORD_USECMAP = KWD(b"usecmap")
@@ -392,7 +397,7 @@ class CMapParser(PSStackParser[PSKeyword]):
                 start = nunpack(svar)
                 end = nunpack(evar)
                 vlen = len(svar)
-                for i in range(end - start + 1):
+                for i in range(min(end - start + 1, self.MAX_RANGE)):
                     x = start_prefix + struct.pack(">L", start + i)[-vlen:]
                     self.cmap.add_cid2unichr(cid + i, x)
             return
@@ -440,7 +445,7 @@ class CMapParser(PSStackParser[PSKeyword]):
                     base = nunpack(var)
                     prefix = code[:-4]
                     vlen = len(var)
-                    for i in range(end - start + 1):
+                    for i in range(min(end - start + 1, self.MAX_RANGE)):
                         x = prefix + struct.pack(">L", base + i)[-vlen:]
                         self.cmap.add_cid2unichr(start + i, x)
             return
